@@ -9,7 +9,10 @@
 typedef struct fiber_barrier {
   uint32_t count;
   _Atomic uint64_t counter;
-  mpsc_fifo_t waiters;
+  // consecutive rounds alternate between two waiter queues: a fiber that has
+  // been released from round k and immediately waits for round k+1 must not be
+  // visible to the fiber that is still releasing the waiters of round k
+  mpsc_fifo_t waiters[2];
 } fiber_barrier_t;
 
 #define FIBER_BARRIER_SERIAL_FIBER (1)
